@@ -516,7 +516,7 @@ where
     ///
     pub fn from_pattern(pattern: &[&str]) -> MockDisplay<C> {
         // Check pattern dimensions.
-        let pattern_width = pattern.first().map_or(0, |row| row.len());
+        let pattern_width = pattern.first().map_or(0, |row| row.chars().count());
         let pattern_height = pattern.len();
         assert!(
             pattern_width <= SIZE,
@@ -529,12 +529,13 @@ where
             SIZE
         );
         for (row_idx, row) in pattern.iter().enumerate() {
+            let row_width = row.chars().count();
             assert_eq!(
-                row.len(),
+                row_width,
                 pattern_width,
                 "Row #{} is {} characters wide (must be {} characters to match previous rows)",
                 row_idx + 1,
-                row.len(),
+                row_width,
                 pattern_width
             );
         }
